@@ -110,10 +110,10 @@ CONFIGS = {
 
 PLAN = {
     "C01": dict(quick=["shapes3", "seeds3", "arch3"], thorough=["shapes3", "seeds3", "lin4", "ignore3", "oog3", "arch3"],
-                drivers=["forced", "run", "closure", "incr", "group", "afterincr", "pool1"]),
+                drivers=["forced", "run", "closure", "incr", "group", "afterincr", "pool1", "rerun"]),
     "C02": dict(quick=["kinds3q", "miss3q", "dis3q", "points3", "falsy3"],
                 thorough=["kinds3", "rules3", "miss3q", "dis3q", "points3", "falsy3", "shapes3", "ignore3"],
-                drivers=["forced", "run"]),
+                drivers=["forced", "run", "rerun"]),
     "C03": dict(quick=["faults3q", "faults3c", "elems3"], thorough=["faults3", "faults3b", "faults3c", "faults4", "rules3", "elems3full"],
                 drivers=["forced", "run"]),
     "C04": dict(quick=["lin4", "oog3", "arch3", "faultsP"], thorough=["lin4", "oog3", "arch3", "faultsP", "seeds3", "faults3q", "shapes3", "miss3q"],
@@ -370,7 +370,7 @@ def run(prop, tier):
                 continue
             first = ts[0]
             traces.append(dict(id=first["id"].split("/")[0] + "/same", prog=first["prog"], ss=first["ss"], mode="single",
-                               closure=False, strict=True, arch=False,
+                               closure=False, strict=True, arch=False, miss0=first.get("miss0", []),
                                workers=1, final=None,
                                events=[dict(ev="same", ra=first["id"], rb=t["id"], a=first["final"], b=t["final"])
                                        for t in ts[1:]]))
